@@ -158,6 +158,14 @@ def _elem_pool(w, r, P, field, n, junk_ok=False):
         x = r.random()
         if junk_ok and x < 0.1:
             out.append(r.randrange(0, 3))
+        elif junk_ok and x < 0.2:
+            # a node that can never be a member: of another kind, preferably one that lives in a
+            # SIBLING collection of the same owner (m.symbols.discard(<proxy of m>))
+            sib = [k for k in m.kids(P) if k not in members]
+            anyn = [l for l in m.nodes if m.nodes[l].kind not in kinds]
+            c = pick(r, sib) if sib and r.random() < 0.7 else pick(r, anyn)
+            if c is not None:
+                out.append(c)
         elif x < 0.45 and members:
             out.append(pick(r, members))
         elif pool:
